@@ -182,6 +182,7 @@ type Config struct {
 	MapBase       string
 	YieldOnMake   bool
 	YieldOnMap    bool
+	OnQuiescent   func()
 	ClockAdvance  bool
 	KeepTrace     bool
 	WallLimit     time.Duration
@@ -193,7 +194,7 @@ type Stats struct {
 	Steps, Switches, ClockJumps, VoluntaryClock, ForeignFired int
 	MapDecisions, MapNonSorted                                int
 	SelectMulti, MutexContended, ChanSendBlocked              int
-	Settled, TimersFired, BusyAdvance, SortYields             int
+	Settled, TimersFired, BusyAdvance, SortYields, Quiescent  int
 }
 
 type Sim struct {
